@@ -533,6 +533,7 @@ func (t *RaftTransaction) ListPage(ctx context.Context, prefix string, after str
 	// 2. The immediate next list entry, if any.
 	var presentKeys []string
 	var nextPresentEntry string
+	var stoppedEarly bool
 
 	// Iterate through the results of list and see if the underlying data
 	// store already had entries for this list operation. Merge in any
@@ -545,6 +546,7 @@ func (t *RaftTransaction) ListPage(ctx context.Context, prefix string, after str
 		if limit > 0 && len(keys) >= limit {
 			// We've seen enough entries; exit.
 			nextPresentEntry = entry
+			stoppedEarly = true
 			break
 		}
 
@@ -625,6 +627,13 @@ func (t *RaftTransaction) ListPage(ctx context.Context, prefix string, after str
 		presentKeys = append(presentKeys, nextPresentEntry)
 	}
 	verifyLimit := len(presentKeys)
+	if !stoppedEarly {
+		// We iterated to the end of the underlying listing: there is no
+		// next entry to pin, so verify against everything that follows;
+		// otherwise an entry added after the last one we saw (a phantom)
+		// would not be part of the re-executed, limited listing.
+		verifyLimit = math.MaxInt32
+	}
 	listParams, contentsHash, err := createListVerificationEntry(prefix, after, verifyLimit, presentKeys)
 	if err != nil {
 		return nil, err
